@@ -31,6 +31,9 @@ CLAIMED = {
  "C20": ("One inductive step of the real healthCheck from an arbitrary state satisfying status = max(0, N - consecutive failures) (N any threshold >= 1, <=3 tokens with arbitrary ping outcomes) re-establishes the invariant, which covers histories of any length; Healthy() is compared with its specification over symbolic (disabled, elapsed, interval, status) on a frozen symbolic clock; healthCheckLoop is executed with the Closed channel closed and a bounded number of timer events and must return (loop-bound = hang finding).",
          "Trusted: engine (select = symbolic choice among ready cases; timers fire at most a harness-given number of times; frozen clock), opaque logging/metrics, z3. Wall-clock timers, prometheus gauges, log text are outside.",
          "DESIGN.md §4 C20"),
+ "C15": ("The real worker.doRetry + doOnce run against a harness http.RoundTripper whose per-attempt outcome (success, retryable / key-usage / permanent token error, HTTP 503 / 400, unexpected EOF, connection refused, timeout, malformed reply) and the caller's cancellation point are symbolic choices: attempts <= configured retries, success iff the last executed attempt succeeded, retry only after a transient failure, classification (KeyUsageError, ResponseError, sentinel errors) intact, transient failures retried to the limit. tokencache.Cache.GetKey from an arbitrary cache state: a pinned key id is never served from a cached key with another id, never writes the cache, expired entries are not served, mutex released.",
+         "Trusted: engine (context model: a timeout eventually fires, no goroutines; http.Client.Do = Transport.RoundTrip with url.Error wrapping; json identity), z3. Bounds: retries <=3 (4 thorough; 0 = default 5). The worker-side handler (cookie check) lives in a cgo package (miekg/pkcs11) and is not loaded; real HTTP / process supervision are outside.",
+         "DESIGN.md §4 C15"),
 }
 
 NOT_APPLICABLE = {
